@@ -40,6 +40,13 @@ def two_histories(rng, flen):
             extra.append(G.f_query(rng, net, 0))
             pos = rng.randrange(len(h) + 1)
             h = h[:pos] + [G.f_discover(rng, net, m=0, tos=0)] + extra + h[pos:]
+        if rng.random() < 0.5:
+            # the host's other interface is a station like any other: its emissions reach this interface (real source = the
+            # sibling's address) and are observations to be reported
+            sib = cfgs[1 - len(hs)]["mac"]
+            pos = rng.randrange(len(h) + 1)
+            h = h[:pos] + [G.f_discover(rng, net, m=0, tos=0), W.probe(c["mac"], sib, c["mac"], sib, train=rng.random() < 0.5),
+                           W.probe(c["mac"], net.strangers[0], c["mac"], sib), G.f_query(rng, net, 0)] + h[pos:]
         hs.append(h)
     return cfgs, hs
 
